@@ -451,6 +451,48 @@ pub fn enc_cmd(cmd: &Command, reply: &RespValue) -> Option<String> {
         Command::HLen(k) => format!("HLEN {}", hk(k)),
         Command::HExists(k, f) => format!("HEXISTS {} {}", hk(k), hv(f)),
         Command::HIncrBy(k, f, d) => format!("HINCRBY {} {} {}", hk(k), hv(f), d),
+        Command::ZAdd { key, pairs, nx, xx, gt, lt, ch } => {
+            if pairs.is_empty() || (*nx && (*xx || *gt || *lt)) || (*gt && *lt) {
+                return None;
+            }
+            let mut s = format!("ZADD {} {}{}{}{}{} {}", hk(key), *nx as u8, *xx as u8, *gt as u8, *lt as u8, *ch as u8, pairs.len());
+            for (sc, m) in pairs {
+                let t = score_text(*sc);
+                if t.starts_with("float") {
+                    return None; // non-integral scores are outside the model
+                }
+                s.push_str(&format!(" {} {}", hv(m), t));
+            }
+            s
+        }
+        Command::ZRem(k, ms) => {
+            if ms.is_empty() {
+                return None;
+            }
+            let mut s = format!("ZREM {} {}", hk(k), ms.len());
+            for m in ms {
+                s.push(' ');
+                s.push_str(&hv(m));
+            }
+            s
+        }
+        Command::ZRange(k, a, b, w) => format!("ZRANGE {} {} {} {}", hk(k), a, b, *w as u8),
+        Command::ZRevRange(k, a, b, w) => format!("ZREVRANGE {} {} {} {}", hk(k), a, b, *w as u8),
+        Command::ZScore(k, m) => format!("ZSCORE {} {}", hk(k), hv(m)),
+        Command::ZRank(k, m) => format!("ZRANK {} {}", hk(k), hv(m)),
+        Command::ZCard(k) => format!("ZCARD {}", hk(k)),
+        Command::ZCount(k, lo, hi) => format!("ZCOUNT {} {} {}", hk(k), bound_token(lo)?, bound_token(hi)?),
+        Command::ZRangeByScore { key, min, max, with_scores, limit } => format!(
+            "ZRANGEBYSCORE {} {} {} {} {}",
+            hk(key),
+            bound_token(min)?,
+            bound_token(max)?,
+            *with_scores as u8,
+            match limit {
+                None => "-".to_string(),
+                Some((o, c)) => format!("{} {}", o, c),
+            }
+        ),
         Command::LPop(k) => format!("LPOP {}", hk(k)),
         Command::RPop(k) => format!("RPOP {}", hk(k)),
         Command::LLen(k) => format!("LLEN {}", hk(k)),
@@ -672,6 +714,84 @@ pub fn gen_list_cmd(rng: &mut Rng) -> Command {
     }
 }
 
+/// the score-range bounds the generator uses, with their meaning for the model
+/// (i = inclusive, e = exclusive, bad = "min or max is not a float").  Only integral bounds and
+/// ±inf; `""` and `"("` (which strtod-based Redis reads as 0) are not generated.
+pub const BOUNDS: [(&str, &str); 16] = [
+    ("-inf", "i-inf"),
+    ("+inf", "iinf"),
+    ("inf", "iinf"),
+    ("(-inf", "e-inf"),
+    ("(inf", "einf"),
+    ("0", "i0"),
+    ("(0", "e0"),
+    ("2", "i2"),
+    ("(2", "e2"),
+    ("-3", "i-3"),
+    ("(-3", "e-3"),
+    ("5", "i5"),
+    ("(5", "e5"),
+    ("abc", "bad"),
+    ("1x", "bad"),
+    ("(x", "bad"),
+];
+
+pub fn bound_token(s: &str) -> Option<String> {
+    BOUNDS.iter().find(|(t, _)| *t == s).map(|(_, m)| m.to_string())
+}
+
+fn zscore_val(rng: &mut Rng) -> f64 {
+    match rng.below(12) {
+        0 => f64::INFINITY,
+        1 => f64::NEG_INFINITY,
+        2 => 9007199254740991.0,
+        _ => rng.below(9) as f64 - 3.0,
+    }
+}
+
+pub fn gen_zset_cmd(rng: &mut Rng) -> Command {
+    let k = key(rng);
+    let b = |rng: &mut Rng| rng.pick(&BOUNDS).0.to_string();
+    match rng.below(24) {
+        0..=6 => {
+            let (nx, xx, gt, lt) = *rng.pick(&[
+                (false, false, false, false),
+                (false, false, false, false),
+                (false, false, false, false),
+                (true, false, false, false),
+                (false, true, false, false),
+                (false, false, true, false),
+                (false, false, false, true),
+                (false, true, true, false),
+                (false, true, false, true),
+            ]);
+            Command::ZAdd {
+                key: k,
+                pairs: (0..rng.range(1, 3)).map(|_| (zscore_val(rng), member(rng))).collect(),
+                nx,
+                xx,
+                gt,
+                lt,
+                ch: rng.chance(1, 3),
+            }
+        }
+        7..=9 => Command::ZRem(k, (0..rng.range(1, 3)).map(|_| member(rng)).collect()),
+        10..=12 => Command::ZRange(k, index(rng), index(rng), rng.chance(1, 2)),
+        13 | 14 => Command::ZRevRange(k, index(rng), index(rng), rng.chance(1, 2)),
+        15 | 16 => Command::ZScore(k, member(rng)),
+        17 | 18 => Command::ZRank(k, member(rng)),
+        19 => Command::ZCard(k),
+        20 | 21 => Command::ZCount(k, b(rng), b(rng)),
+        _ => Command::ZRangeByScore {
+            key: k,
+            min: b(rng),
+            max: b(rng),
+            with_scores: rng.chance(1, 2),
+            limit: if rng.chance(1, 2) { Some((rng.below(5) as isize - 1, rng.below(4) as usize)) } else { None },
+        },
+    }
+}
+
 /// set member / hash field: mostly from a small alphabet (so that they collide), sometimes any payload
 pub fn member(rng: &mut Rng) -> SDS {
     if rng.chance(3, 4) {
@@ -721,7 +841,7 @@ pub fn gen_other_type_cmd(rng: &mut Rng) -> Command {
 }
 
 pub fn gen_cmd(rng: &mut Rng, now: u64) -> Command {
-    match rng.below(36) {
+    match rng.below(41) {
         0..=5 => gen_string_cmd(rng, now),
         6..=7 => gen_counter_cmd(rng),
         8..=11 => gen_key_cmd(rng),
@@ -729,6 +849,7 @@ pub fn gen_cmd(rng: &mut Rng, now: u64) -> Command {
         17..=22 => gen_list_cmd(rng),
         23..=27 => gen_set_cmd(rng),
         28..=33 => gen_hash_cmd(rng),
+        34..=40 => gen_zset_cmd(rng),
         _ => gen_other_type_cmd(rng),
     }
 }
